@@ -60,6 +60,13 @@ type call struct {
 type caseT struct {
 	Script   []call `json:"script"`
 	Children []int  `json:"children,omitempty"` // indices into childPool
+	// filled in when a violation is written out; ignored by replay
+	Observed []string `json:"observed,omitempty"`
+}
+
+func (c caseT) withObserved(v *violation) caseT {
+	c.Observed = strings.Split(v.detail, "\n")
+	return c
 }
 
 // memory layout of the fixed initial image (one page)
@@ -151,6 +158,10 @@ func genGeneric(t *rapid.T, sigs map[string]wasiproxy.Sig, name string) call {
 			v = uint64(rapid.IntRange(0, 10).Draw(t, lbl))
 		case name == "poll_oneoff" && pn == "nsubscriptions":
 			v = uint64(rapid.IntRange(0, 8).Draw(t, lbl)) // huge counts belong to C15
+		case pn == "iovs_len" || pn == "si_data_len" || pn == "ri_data_len":
+			// few vectors, or so many that the array cannot fit into memory: a guest may write
+			// at most a few hundred KiB per call (output is discarded, but not under mutations)
+			v = rapid.SampledFrom([]uint64{0, 1, 1, 2, 3, 4, 1 << 20, 0xffffffff}).Draw(t, lbl)
 		case pn == "fd" || strings.HasSuffix(pn, "_fd"):
 			v = rapid.SampledFrom(fdPool).Draw(t, lbl)
 		case strings.HasSuffix(pn, "_len") || pn == "len":
@@ -549,7 +560,17 @@ func runEngine(engine string, sc []call, markers [][]byte, full bool) ([]runResu
 	return out, names, nil
 }
 
-func firstDiff(a, b []string) string {
+// lineLabel is the part of a trace line that is a function of the script ("#3 random_get").
+func lineLabel(l string) string {
+	if k := strings.Index(l, ":"); k > 0 {
+		return l[:k]
+	}
+	return "(no such line)"
+}
+
+// firstDiff compares two traces. stable names the first differing line without the observed
+// values (rapid needs a message that is a function of the case); detail shows both lines.
+func firstDiff(a, b []string) (stable, detail string) {
 	for i := 0; i < len(a) || i < len(b); i++ {
 		var x, y string
 		if i < len(a) {
@@ -559,16 +580,24 @@ func firstDiff(a, b []string) string {
 			y = b[i]
 		}
 		if x != y {
-			if len(x) > 600 {
-				x = x[:600] + "..."
+			what := "the bytes written to guest memory differ"
+			if kx, ky := strings.Index(x, " mem=["), strings.Index(y, " mem=["); kx < 0 || ky < 0 || x[:kx] != y[:ky] {
+				what = "errno/outcome differ"
 			}
-			if len(y) > 600 {
-				y = y[:600] + "..."
+			lbl := lineLabel(x)
+			if x == "" {
+				lbl = lineLabel(y)
 			}
-			return fmt.Sprintf("first difference at trace line %d:\n   %s\n   %s", i, x, y)
+			if len(x) > 700 {
+				x = x[:700] + "..."
+			}
+			if len(y) > 700 {
+				y = y[:700] + "..."
+			}
+			return fmt.Sprintf("first difference at trace line %d (%s): %s", i, lbl, what), fmt.Sprintf("reference: %s\nthis run:  %s", x, y)
 		}
 	}
-	return ""
+	return "", ""
 }
 
 // hostMarkers lists strings of this process' host environment that must not show up in a guest.
@@ -622,12 +651,16 @@ func hostMarkers(extra ...string) [][]byte {
 	return out
 }
 
+// violation is a failed oracle: msg is a function of the case (and of the fixed child
+// configurations), detail carries the observed values.
+type violation struct{ msg, detail string }
+
 // runLocal executes the script in this process on both engines and returns the reference
-// trace and a violation message ("" if none).
-func runLocal(sc []call, markers [][]byte) (ref []string, msg string, err error) {
+// trace and the first violation (nil if none).
+func runLocal(sc []call, markers [][]byte) (ref []string, v *violation, err error) {
 	type done struct {
 		ref []string
-		msg string
+		v   *violation
 		err error
 	}
 	ch := make(chan done, 1)
@@ -640,15 +673,15 @@ func runLocal(sc []call, markers [][]byte) (ref []string, msg string, err error)
 				break
 			}
 			for i, r := range rs {
-				if len(r.Problems) > 0 && d.msg == "" {
-					d.msg = fmt.Sprintf("%s: %s", names[i], strings.Join(r.Problems, "; "))
+				if len(r.Problems) > 0 && d.v == nil {
+					d.v = &violation{fmt.Sprintf("%s in this process: %s", names[i], strings.Join(r.Problems, "; ")), ""}
 				}
 				if d.ref == nil {
 					d.ref = r.Trace
 					continue
 				}
-				if df := firstDiff(d.ref, r.Trace); df != "" && d.msg == "" {
-					d.msg = fmt.Sprintf("trace of %s differs from interpreter/runtimeA/instance1 in the same process: %s", names[i], df)
+				if st, det := firstDiff(d.ref, r.Trace); st != "" && d.v == nil {
+					d.v = &violation{fmt.Sprintf("trace of %s differs from interpreter/runtimeA/instance1 in the same process: %s", names[i], st), det}
 				}
 			}
 		}
@@ -656,10 +689,10 @@ func runLocal(sc []call, markers [][]byte) (ref []string, msg string, err error)
 	}()
 	select {
 	case d := <-ch:
-		return d.ref, d.msg, d.err
+		return d.ref, d.v, d.err
 	case <-time.After(40 * time.Second):
 		f := scriptFeatures(sc)
-		return nil, fmt.Sprintf("the script did not finish within 40 s in this process (asks for long sleeps: %v): the default configuration must not really sleep or block", f.longSleep), nil
+		return nil, &violation{fmt.Sprintf("the script did not finish within 40 s in this process (asks for long sleeps: %v): the default configuration must not really sleep or block", f.longSleep), ""}, nil
 	}
 }
 
@@ -821,7 +854,7 @@ func TestChild(t *testing.T) {
 }
 
 // runChildren runs the script in the listed child processes (concurrently) and compares.
-func runChildren(sc []call, children []int, ref []string) (msg string, err error) {
+func runChildren(sc []call, children []int, ref []string) (v *violation, err error) {
 	type cres struct {
 		co  childOut
 		std string
@@ -841,22 +874,22 @@ func runChildren(sc []call, children []int, ref []string) (msg string, err error
 	for i, r := range out {
 		idx := children[i]
 		if r.err != nil {
-			return "", r.err
+			return nil, r.err
 		}
 		if strings.Contains(r.std, "C18-GUEST-OUTPUT-MARKER") {
-			return fmt.Sprintf("child process %d: what the guest wrote to fd 1/2 reached the real stdout/stderr: %q", idx, firstN(r.std, 300)), nil
+			return &violation{fmt.Sprintf("child process %d: what the guest wrote to fd 1/2 reached the real stdout/stderr", idx), firstN(r.std, 400)}, nil
 		}
 		for _, eng := range wz.Engines {
 			rr := r.co.Results[eng]
 			if len(rr.Problems) > 0 {
-				return fmt.Sprintf("child process %d (%s, %v): %s", idx, eng, r.co.Info, strings.Join(rr.Problems, "; ")), nil
+				return &violation{fmt.Sprintf("child process %d (%s): %s", idx, eng, strings.Join(rr.Problems, "; ")), fmt.Sprintf("child: %v", r.co.Info)}, nil
 			}
-			if df := firstDiff(ref, rr.Trace); df != "" {
-				return fmt.Sprintf("trace in child process %d (%s, %v) differs from the trace in the parent process: %s", idx, eng, r.co.Info, df), nil
+			if st, det := firstDiff(ref, rr.Trace); st != "" {
+				return &violation{fmt.Sprintf("trace in child process %d (%s) differs from the trace in the parent process: %s", idx, eng, st), fmt.Sprintf("child: %v\n%s", r.co.Info, det)}, nil
 			}
 		}
 	}
-	return "", nil
+	return nil, nil
 }
 
 // ---- the checks ----
@@ -872,16 +905,16 @@ var (
 )
 
 // runCase is shared by the properties and by TestReplay.
-func runCase(c caseT) (msg string, err error) {
+func runCase(c caseT) (v *violation, err error) {
 	parentMarkersOnce.Do(func() { parentMarkers = hostMarkers() })
-	ref, msg, err := runLocal(c.Script, parentMarkers)
-	if err != nil || msg != "" {
-		return msg, err
+	ref, v, err := runLocal(c.Script, parentMarkers)
+	if err != nil || v != nil {
+		return v, err
 	}
 	if len(c.Children) > 0 {
 		return runChildren(c.Script, c.Children, ref)
 	}
-	return "", nil
+	return nil, nil
 }
 
 func record(c caseT) {
@@ -923,12 +956,12 @@ func TestProcesses(t *testing.T) {
 		c := caseT{Script: genScript(t)}
 		perm := rapid.Permutation([]int{0, 1, 2, 3, 4, 5, 6, 7}).Draw(t, "children")
 		c.Children = perm[:nchildren]
-		msg, err := runCase(c)
+		v, err := runCase(c)
 		if err != nil {
 			t.Fatalf("harness: %v", err)
 		}
-		if msg != "" {
-			evid.Fail(t, c, "%s", msg)
+		if v != nil {
+			evid.Fail(t, c.withObserved(v), "%s", v.msg)
 		}
 		record(c)
 		if f := scriptFeatures(c.Script); f.clock && f.random && f.exposing && f.longSleep {
@@ -943,12 +976,12 @@ func TestInProcess(t *testing.T) {
 	}
 	evid.Check(t, "in-process", evid.Scale(4000, 400000), func(t *rapid.T) {
 		c := caseT{Script: genScript(t)}
-		msg, err := runCase(c)
+		v, err := runCase(c)
 		if err != nil {
 			t.Fatalf("harness: %v", err)
 		}
-		if msg != "" {
-			evid.Fail(t, c, "%s", msg)
+		if v != nil {
+			evid.Fail(t, c.withObserved(v), "%s", v.msg)
 		}
 		record(c)
 	})
@@ -963,12 +996,13 @@ func TestReplay(t *testing.T) {
 	if _, err := evid.LoadReplay(p, &c); err != nil {
 		t.Fatal(err)
 	}
-	msg, err := runCase(c)
+	c.Observed = nil
+	v, err := runCase(c)
 	if err != nil {
 		t.Fatalf("harness: %v", err)
 	}
-	if msg != "" {
-		evid.Violation("replay", c, "%s", msg)
-		t.Fatal(msg)
+	if v != nil {
+		evid.Violation("replay", c.withObserved(v), "%s", v.msg)
+		t.Fatal(v.msg + "\n" + v.detail)
 	}
 }
